@@ -92,11 +92,17 @@ fn check(c: &Case, ctx: &Ctx) -> Outcome {
                 args.push(n);
             }
             // the output prefix may or may not carry the .skf suffix already
-            args.extend_from_slice(&["-o", if samples.len() % 2 == 0 { "m.skf" } else { "m" }]);
+            // the output prefix may carry the .skf suffix already, or contain a dot of its own
+            let prefix = ["m", "m.skf", "m.v1"][(samples.len() + k / 2) % 3];
+            args.extend_from_slice(&["-o", prefix]);
             let o = run_ska(ctx, &dir, &args);
             must_ok(&o, "ska merge")?;
-            if dir.join("m.skf.skf").exists() {
-                return Err(Outcome::Fail("merge -o m.skf wrote m.skf.skf".into()));
+            let want = if prefix.ends_with(".skf") { prefix.to_string() } else { format!("{prefix}.skf") };
+            if !dir.join(&want).exists() {
+                return Err(Outcome::Fail(format!("merge -o {prefix} did not write {want}")));
+            }
+            if want != "m.skf" {
+                std::fs::rename(dir.join(&want), dir.join("m.skf")).map_err(|e| Outcome::Infra(e.to_string()))?;
             }
         }
         let got = nk(ctx, &dir, "m.skf")?;
